@@ -377,6 +377,9 @@ func (p *sparser) postfix() *SExpr {
 	}
 }
 func (p *sparser) primary() *SExpr {
+	if p.peek() == token.IDENT && (p.toks[p.i].lit == "forall" || p.toks[p.i].lit == "exists") && p.peekAt(1) == token.IDENT {
+		return p.expr()
+	}
 	t := p.next()
 	switch t.t {
 	case token.IDENT:
